@@ -57,6 +57,17 @@ def from_era5(dset, freqs=None, dirs=None):
 
     """
 
+    # Native ERA5 names when the dataset has not been standardised by read_era5
+    mapping = {
+        "d2fd": attrs.SPECNAME,
+        "frequency": attrs.FREQNAME,
+        "direction": attrs.DIRNAME,
+        "longitude": attrs.LONNAME,
+        "latitude": attrs.LATNAME,
+    }
+    names = set(dset.variables) | set(dset.dims)
+    dset = dset.rename({k: v for k, v in mapping.items() if k in names})
+
     # Convert ERA5 format to wavespectra format
     dset = 10**dset * np.pi / 180
     dset = dset.fillna(0)
